@@ -663,11 +663,19 @@ impl<T: Smp> Slot<T> {
             }
             "get" => {
                 let before = alloc_count::snap();
-                let g = getters(&self.inst);
+                let v = with_inst!(&self.inst, r => (
+                    Resampler::input_frames_next(r),
+                    Resampler::input_frames_max(r),
+                    Resampler::output_frames_next(r),
+                    Resampler::output_frames_max(r),
+                    Resampler::output_delay(r),
+                    Resampler::nbr_channels(r)
+                ));
                 let d = alloc_count::snap().since(before);
-                // formatting allocates: count only what is beyond one String per getters() call
-                let _ = d;
-                format!("ok | {}", g)
+                format!(
+                    "ok | g {} {} {} {} {} {} | a{},{},{}",
+                    v.0, v.1, v.2, v.3, v.4, v.5, d.0, d.1, d.2
+                )
             }
             _ => "bad-op".into(),
         }
